@@ -27,6 +27,10 @@ pub struct Case {
     pub cut_range: Option<(usize, usize)>,
     /// which delivery classes are exercised: subset of full, cuts, trailers, nofinalnl, unsigned
     pub classes: Vec<String>,
+    /// some payload lines end in CR (the transport used CR LF for them); such messages are only
+    /// delivered complete, and the marker line followed by CR is tried as an unsigned text
+    #[serde(default)]
+    pub cr: bool,
 }
 
 fn wrap(c: &Case) -> String {
@@ -186,9 +190,14 @@ fn v(clause: &str, op: &str, pre: &str, detail: String) -> Violation {
 }
 
 fn check(received: &str, kind: &str, full_payload: Option<&str>, obs: &mut Obs) -> Result<(), Violation> {
+    check_tagged(received, kind, full_payload, "", obs)
+}
+
+fn check_tagged(received: &str, kind: &str, full_payload: Option<&str>, tag: &str, obs: &mut Obs) -> Result<(), Violation> {
     let exp = reference(received);
     probe::at("strip_pgp_signature");
-    obs.prestate = format!("{kind}:{}", exp.class());
+    obs.prestate = format!("{kind}:{}{tag}", exp.class());
+    let cls = format!("{}{tag}", exp.class());
     let got = strip_pgp_signature(received);
     obs.step();
     obs.count(&format!("reach.{}", exp.class().replace('-', "_")));
@@ -196,13 +205,13 @@ fn check(received: &str, kind: &str, full_payload: Option<&str>, obs: &mut Obs) 
     // central safety clause, checked directly
     if let (Ok((p, Some(_))), Some(fp)) = (&got, full_payload) {
         if p != fp {
-            return Err(v("pgp-payload", kind, exp.class(), format!("received {:?}: a payload {:?} was presented as validly signed, the signed payload is {:?}", received, p, fp)));
+            return Err(v("pgp-payload", kind, &cls, format!("received {:?}: a payload {:?} was presented as validly signed, the signed payload is {:?}", received, p, fp)));
         }
     }
     let ok = match (&exp, &got) {
         (Expect::Pass, Ok((t, None))) => {
             if t != received {
-                return Err(v("pgp-passthrough", kind, exp.class(), format!("unsigned text {:?} came back as {:?}", received, t)));
+                return Err(v("pgp-passthrough", kind, &cls, format!("unsigned text {:?} came back as {:?}", received, t)));
             }
             true
         }
@@ -212,17 +221,17 @@ fn check(received: &str, kind: &str, full_payload: Option<&str>, obs: &mut Obs) 
         (Expect::Junk, Err(PgpError::JunkAfterPgpSignature)) => true,
         (Expect::Signed(p, s), Ok((gp, Some(gs)))) => {
             if p != gp {
-                return Err(v("pgp-payload", kind, exp.class(), format!("received {:?}: payload {:?}, expected {:?}", received, gp, p)));
+                return Err(v("pgp-payload", kind, &cls, format!("received {:?}: payload {:?}, expected {:?}", received, gp, p)));
             }
             if s != gs {
-                return Err(v("pgp-signature", kind, exp.class(), format!("received {:?}: signature {:?}, expected {:?}", received, gs, s)));
+                return Err(v("pgp-signature", kind, &cls, format!("received {:?}: signature {:?}, expected {:?}", received, gs, s)));
             }
             true
         }
         _ => false,
     };
     if !ok {
-        return Err(v("pgp-outcome", kind, exp.class(), format!("received {:?}: got {}, reference says {}", received, actual_class(&got), exp.class())));
+        return Err(v("pgp-outcome", kind, &cls, format!("received {:?}: got {}, reference says {}", received, actual_class(&got), exp.class())));
     }
     obs.event(exp.class());
     Ok(())
@@ -305,6 +314,19 @@ impl Scenario for C19 {
             unsigned.push(d);
         }
         unsigned.push(String::new());
+        let cr = rng.chance(1, 12);
+        let mut payload: Vec<String> = payload;
+        if cr {
+            if payload.is_empty() {
+                payload.push("Origin: Debian".to_string());
+            }
+            let k = rng.below(payload.len());
+            for (i, l) in payload.iter_mut().enumerate() {
+                if i == k || rng.chance(1, 2) {
+                    l.push('\r');
+                }
+            }
+        }
         Case {
             headers,
             payload,
@@ -312,7 +334,8 @@ impl Scenario for C19 {
             trailers,
             unsigned,
             cut_range: None,
-            classes: vec!["full".into(), "cuts".into(), "trailers".into(), "nofinalnl".into(), "unsigned".into()],
+            classes: if cr { vec!["full".into()] } else { vec!["full".into(), "cuts".into(), "trailers".into(), "nofinalnl".into(), "unsigned".into()] },
+            cr,
         }
     }
 
@@ -322,6 +345,15 @@ impl Scenario for C19 {
         let has = |k: &str| c.classes.iter().any(|x| x == k);
         let mut deliveries = 0u64;
         let mut classes_seen = std::collections::BTreeSet::new();
+        if c.cr {
+            // CR at the end of a payload line is payload: "LF-terminated lines that need no dash-escaping"
+            obs.count("reach.payload_line_ends_in_cr");
+            if has("full") {
+                check_tagged(&msg, "full", Some(&full_payload), "+cr-line", obs)?;
+            }
+            obs.add("deliveries", 1);
+            return Ok(());
+        }
         if has("full") {
             let exp = reference(&msg);
             let want = Expect::Signed(full_payload.clone(), c.signature.concat());
